@@ -1,5 +1,5 @@
 From Coq Require Import String List NArith.
-From JS Require Import Base.Wire Extract.RunOMap Extract.RunNum Extract.RunGuess Extract.RunJson Extract.RunRegex Extract.RunDiag Extract.RunRec Extract.RunAllOf Extract.RunRefs Extract.RunEnum Extract.RunRules Extract.RunPlain Extract.RunSText.
+From JS Require Import Base.Wire Extract.RunOMap Extract.RunNum Extract.RunGuess Extract.RunJson Extract.RunRegex Extract.RunDiag Extract.RunRec Extract.RunAllOf Extract.RunRefs Extract.RunEnum Extract.RunRules Extract.RunOast Extract.RunPlain Extract.RunSText.
 Import ListNotations.
 
 (* one case line -> one result line; the first token names the model *)
@@ -19,6 +19,7 @@ Definition dispatch (line : bytes) : bytes :=
     else if beqb cmd B"enum" then run_enum args
     else if beqb cmd B"rules" then run_rules args
     else if beqb cmd B"oasleaf" then run_oasleaf args
+    else if beqb cmd B"oast" then run_oast args
     else if beqb cmd B"plain" then run_plain args
     else if beqb cmd B"jlen" then run_jlen args
     else if beqb cmd B"stext" then run_stext args
